@@ -38,6 +38,53 @@ func Debug(c *Ctx, what string) {
 				fmt.Printf("%-60s   UNKNOWN %s\n", "", u)
 			}
 		}
+	case "sm":
+		m := BuildSM(c)
+		fmt.Println("problems:", m.Problems)
+		if m.An != nil {
+			fmt.Println("cursor classes:", m.An.cursorClass)
+			fmt.Println("rune literals:", m.An.lits)
+		}
+		for _, cx := range m.Contexts {
+			fmt.Printf("=== context %s reach=%v\n", cx.Name, m.Reach[cx.Name])
+			agg := map[string]int{}
+			var keys []string
+			for _, p := range m.Paths[cx.Name] {
+				nx := p.Next
+				if p.Returned {
+					nx = "RETURN(" + p.RetKind + ": " + p.RetText + ")"
+				} else if nx == "" {
+					nx = "stay"
+				}
+				var eff []string
+				for _, f := range []string{"scheme", "username", "password", "host", "port", "decodedPort", "path", "query", "fragment"} {
+					if d := p.Disposition(f); d != "untouched" {
+						eff = append(eff, f+"="+d)
+					}
+				}
+				var cur []string
+				for _, co := range p.Cursor {
+					if co.Class != "neutral" {
+						cur = append(cur, co.Name)
+					}
+				}
+				var hs []string
+				for _, h := range p.Handlers {
+					if h.Site.Failure {
+						hs = append(hs, fmt.Sprintf("%s!%d", h.Site.TypeName, h.Taken))
+					}
+				}
+				k := fmt.Sprintf("  [%-34s] -> %-60s cur=%v eff=%v fail=%v base=%d r=%v und=%v", p.State, nx, cur, eff, hs, len(p.BaseDerefs), p.RClass, p.Undecided)
+				if agg[k] == 0 {
+					keys = append(keys, k)
+				}
+				agg[k]++
+			}
+			sortStrings(keys)
+			for _, k := range keys {
+				fmt.Printf("%s (x%d)\n", k, agg[k])
+			}
+		}
 	default:
 		fmt.Println("unknown debug target", what, "(eff)")
 	}
